@@ -3,7 +3,7 @@ import core, findings, cleanworlds as cw
 from gen import Gen
 from suites import run_suite
 
-LEAN_MODULES = ['GoSnaps.Props.C09']
+LEAN_MODULES = ['GoSnaps.Props.C09', 'GoSnaps.Props.C05Clean']
 ORACLES = {'C07': [('matched-entries-kept', cw.o_matched_kept)],
            'C09': [('stale-reported-and-removed-only-in-clean-mode', cw.o_stale_reported)],
            'C10': [('rewrite-preserves-sorted-idempotent', cw.o_rewrite_preserves)]}['C09']
@@ -20,7 +20,7 @@ def run(ctx):
     n = 150 if ctx.tier == 'quick' else 4000
     worlds = []
     for i in range(n):
-        allow = ('many',) if g.r.random() < 0.15 else ()
+        allow = ('many',) if g.r.random() < 0.15 else (('big',) if g.r.random() < 0.08 else ())
         spec = cw.make_spec(g, allow)
         worlds.append(cw.render('c09-%d' % i, spec, ORACLES))
     run_suite(ctx, 'clean.C09', worlds, known=known, chunk=200)
